@@ -45,7 +45,9 @@ Fixpoint zinsert (x : Z) (l : list Z) : list Z :=
 Definition step_mids (obs : list eobs) : list Z :=
   fold_right zinsert [] (flat_map (fun o => match o with
                                             | Out _ (OPublish _ _ q _ _ m) => if 0 <? q then [m] else []
-                                            | Out _ (OPubRel m) => [m]
+                                            (* a PUBREL answers ONE subscriber's PUBREC: which identifier that subscriber
+                                               holds is the map-order-dependent part; the oracle checks it against the
+                                               identifier seen on that connection (demands 44 and 70) *)
                                             | _ => [] end) obs).
 
 Definition model_step (st : cluster * seen_t * bool) (s : estep) : cluster * seen_t * bool :=
@@ -54,7 +56,13 @@ Definition model_step (st : cluster * seen_t * bool) (s : estep) : cluster * see
   | EPanic => (cl, seen, false)
   | _ =>
     let r := step seen cl (fst s) in
-    (fst r, fold_left see1 (snd r) seen, ok && perm_eqb eobs_eqb (snd r) (snd s) && zlist_eqb (step_mids (snd r)) (step_mids (snd s)))
+    (* broker-chosen identifiers are not compared between model and implementation at all: which
+       subscriber holds which identifier depends on Go's map order, and once subscribers acknowledge
+       selectively even the SET of identifiers in flight does (the one freed is the one that
+       subscriber happened to get).  The identifier discipline is the oracle's business, on the real
+       identifiers: in range, never one that is in flight (100), retransmissions and PUBREL under the
+       identifier first seen (44, 70), nothing pending but what was seen (93). *)
+    (fst r, fold_left see1 (snd r) seen, ok && perm_eqb eobs_eqb (snd r) (snd s))
   end.
 Definition model_ok (c : case) : bool :=
   let '(_, k, steps) := c in snd (fold_left model_step steps (cnew k, [], true)).
@@ -65,7 +73,7 @@ Fixpoint first_bad (steps : list estep) (cl : cluster) (seen : seen_t) (i : nat)
   | [] => None
   | s :: rest =>
     let r := step seen cl (fst s) in
-    if perm_eqb eobs_eqb (snd r) (snd s) && zlist_eqb (step_mids (snd r)) (step_mids (snd s)) then first_bad rest (fst r) (fold_left see1 (snd r) seen) (S i)
+    if perm_eqb eobs_eqb (snd r) (snd s) then first_bad rest (fst r) (fold_left see1 (snd r) seen) (S i)
     else Some (i, snd r)
   end.
 
